@@ -134,6 +134,10 @@ impl C11 {
         let events: Vec<StepEvent> = log.borrow().clone();
         sh.count("rewrite_events", events.len() as u64);
         match r {
+            Err(p) if p.msg.contains("VERIF-STEP-LIMIT") || p.msg.contains("VERIF-CHAIN-LIMIT") => {
+                // termination is C13's property; without a result there is nothing to judge here
+                sh.inconclusive(format!("simplify_expressions did not terminate ({})\n{label}", p.msg));
+            }
             Err(p) => {
                 let known_mul = p.file.contains("baa") && p.msg.contains("multiplication");
                 let sig = format!("C11|panic|simplify_expressions|{}{}", p.loc(), if known_mul { "|mul-wider-than-128" } else { "" });
